@@ -308,6 +308,25 @@ pub fn tables(tier: Tier) -> &'static Tables {
             long.push(format!("[{text} {city},1]").into_bytes());
             long.push(format!("ver:\"3.0\"\nts\n{text} {city}\n").into_bytes());
         }
+        // flat inputs of 100 000+ elements (a recursion that is linear in the LENGTH of the input
+        // overflows the stack here although nothing is nested)
+        for n in if tier == Tier::Thorough { vec![20_000usize, 100_000, 300_000] } else { vec![20_000usize, 100_000] } {
+            long.push(format!("[{}]", "1,".repeat(n)).into_bytes());
+            long.push(format!("[{}1]", "\"s\", ".repeat(n)).into_bytes());
+            long.push(format!("{{{}}}", (0..n).map(|i| format!("t{i}")).collect::<Vec<_>>().join(" ")).into_bytes());
+            long.push(format!("{{{}}}", (0..n / 4).map(|i| format!("t{i}:{i}")).collect::<Vec<_>>().join(",")).into_bytes());
+            long.push(format!("ver:\"3.0\"\na\n{}", "1\n".repeat(n)).into_bytes());
+            long.push(format!("ver:\"3.0\"\na,b\n{}", "1,\"x\"\r\n".repeat(n)).into_bytes());
+            long.push(format!("ver:\"3.0\" {}\na\n", (0..n / 4).map(|i| format!("m{i}")).collect::<Vec<_>>().join(" ")).into_bytes());
+            long.push(format!("\"{}\"", "ab\\n".repeat(n)).into_bytes());
+            long.push(format!("`{}`", "a/".repeat(n)).into_bytes());
+            long.push(format!("{}", "9".repeat(n)).into_bytes());
+            long.push(format!("1.{}", "3".repeat(n)).into_bytes());
+            long.push(format!("1{}", "_0".repeat(n)).into_bytes());
+            long.push(format!("[{}]", "[],".repeat(n)).into_bytes());
+            long.push(format!("[{}]", "{},".repeat(n)).into_bytes());
+            long.push(format!("[{}]", "<<\nver:\"3.0\"\na\n>>,".repeat(n / 10)).into_bytes());
+        }
         // long names: tags, columns, dict keys
         for n in (1..=72usize).chain([127, 128, 129, 255, 256, 257, 1000]) {
             let name = "a".repeat(n);
@@ -318,6 +337,14 @@ pub fn tables(tier: Tier) -> &'static Tables {
             long.push(format!("ver:\"3.0\"\na\n{}\n", ",".repeat(n)).into_bytes());
         }
         let mut jstructural: Vec<Vec<u8>> = super::c10::json_docs().into_iter().map(|d| d.into_bytes()).collect();
+        for n in if tier == Tier::Thorough { vec![20_000usize, 100_000, 300_000] } else { vec![20_000usize, 100_000] } {
+            jstructural.push(format!("[{}1]", "1,".repeat(n)).into_bytes());
+            jstructural.push(format!("{{{}\"z\":1}}", (0..n / 4).map(|i| format!("\"t{i}\":{i},")).collect::<String>()).into_bytes());
+            jstructural.push(format!("{{\"_kind\":\"grid\",\"cols\":[{{\"name\":\"a\"}}],\"rows\":[{}{{\"a\":1}}]}}", "{\"a\":1},".repeat(n / 4)).into_bytes());
+            jstructural.push(format!("{{\"_kind\":\"grid\",\"cols\":[{}{{\"name\":\"z\"}}],\"rows\":[]}}", (0..n / 8).map(|i| format!("{{\"name\":\"c{i}\"}},")).collect::<String>()).into_bytes());
+            jstructural.push(format!("\"{}\"", "ab\\n".repeat(n)).into_bytes());
+            jstructural.push(format!("[{}[]]", "[],".repeat(n)).into_bytes());
+        }
         for (text, city, _) in crate::model::time_ref::transition_texts() {
             jstructural.push(format!("{{\"_kind\":\"dateTime\",\"val\":\"{text}\",\"tz\":\"{city}\"}}").into_bytes());
         }
@@ -808,7 +835,7 @@ pub fn child_params(job: &str) -> (u64, u64, usize) {
 
 pub fn run(tier: Tier) -> i32 {
     let mut run = Run::new("C03", tier, "fault_enumeration");
-    run.rule = "inputs: every byte string <= 2/3 over all 256 bytes, every string <= 4/5 over the 27-byte token alphabet (Zinc) and a 23-byte JSON alphabet; every prefix, substitution (by each alphabet byte), deletion, duplication and insertion at every position of grammar documents (canonical and 1-deviation spellings of one value per shape class + containers); every one of the 256 byte values substituted at and inserted before every position of the short documents (Zinc <= 14/40 bytes, Hayson <= 24/48 bytes); token-boundary splices of 40 documents; structural damage (rows with 0..n+3 cells, unterminated constructs at every position, header damage; Hayson: every kind tag with every member drawn from 19 fields of right and wrong JSON types, grid parts of the wrong type); long tokens (24 token kinds x every body length 1..72, 100, 127..129, 255..257, 300, 1000, 4096, plain and with a 2-/3-/4-byte character or 0xFF in the middle / at the end, alone and inside list, dict, grid; timestamps with the wall clock in the skipped / repeated hour of 18 zones under agreeing and disagreeing offsets (Zinc and Hayson); long tag / column names, 1..1000 columns, 1..1000 empty cells; all sequences of <= 3 \\uXXXX escapes over 11 code units incl. every surrogate combination); nesting depth 1..256 and 2^k(+1) up to 131072 and 10^5 for 12 nesting patterns on 8 MiB and 2 MiB stacks; reader scripts (deliver/Interrupted/error/EOF/1 byte at every read call) with <= 2 deviations (<= 4 for documents <= 12 bytes) over 41 hand-written documents (every construct with blanks, line endings, escapes, look-ahead) + 150/2000 documents spread over the grammar set. Entry points: from_str, Parser::make+parse_value, parse_grid, parse_grid_iterator (driven to the first error), serde_json from_str/from_slice for Value and 16 typed values, from_value. non-trivial = distinct input of >= 2 bytes (first 64 bytes)".into();
+    run.rule = "inputs: every byte string <= 2/3 over all 256 bytes, every string <= 4/5 over the 27-byte token alphabet (Zinc) and a 23-byte JSON alphabet; every prefix, substitution (by each alphabet byte), deletion, duplication and insertion at every position of grammar documents (canonical and 1-deviation spellings of one value per shape class + containers); every one of the 256 byte values substituted at and inserted before every position of the short documents (Zinc <= 14/40 bytes, Hayson <= 24/48 bytes); token-boundary splices of 40 documents; structural damage (rows with 0..n+3 cells, unterminated constructs at every position, header damage; Hayson: every kind tag with every member drawn from 19 fields of right and wrong JSON types, grid parts of the wrong type); long tokens (24 token kinds x every body length 1..72, 100, 127..129, 255..257, 300, 1000, 4096, plain and with a 2-/3-/4-byte character or 0xFF in the middle / at the end, alone and inside list, dict, grid; timestamps with the wall clock in the skipped / repeated hour of 18 zones under agreeing and disagreeing offsets (Zinc and Hayson); flat inputs of 20 000 / 100 000 / 300 000 elements (lists, dicts, rows, meta tags, escapes, digits, sibling containers; Zinc and Hayson); long tag / column names, 1..1000 columns, 1..1000 empty cells; all sequences of <= 3 \\uXXXX escapes over 11 code units incl. every surrogate combination); nesting depth 1..256 and 2^k(+1) up to 131072 and 10^5 for 12 nesting patterns on 8 MiB and 2 MiB stacks; reader scripts (deliver/Interrupted/error/EOF/1 byte at every read call) with <= 2 deviations (<= 4 for documents <= 12 bytes) over 41 hand-written documents (every construct with blanks, line endings, escapes, look-ahead) + 150/2000 documents spread over the grammar set. Entry points: from_str, Parser::make+parse_value, parse_grid, parse_grid_iterator (driven to the first error), serde_json from_str/from_slice for Value and 16 typed values, from_value. non-trivial = distinct input of >= 2 bytes (first 64 bytes)".into();
     run.assume("a case that does not finish within 6 s is a hang (cases take microseconds); hangs and crashes are confirmed by re-running the case in a fresh single-step child");
     run.assume("each case runs in a child process: abort, stack overflow and allocation failure are observed through the exit status");
     crate::engine::quiet_panics();
